@@ -25,8 +25,10 @@ impl RayCast for HeightField {
         let clip_ray_a = ray.point_at(min_t);
 
         // None may happen due to slight numerical errors.
+        // NOTE: a negative x scale mirrors the field: its cells then run towards -x, so the side of the
+        //       field (and, below, the direction of the walk) in index space is the sign of `x * scale.x`.
         let mut curr = self.cell_at_point(&clip_ray_a).unwrap_or_else(|| {
-            if ray.origin.x > 0.0 {
+            if ray.origin.x * self.scale().x > 0.0 {
                 self.num_cells() - 1
             } else {
                 0_usize
@@ -64,7 +66,7 @@ impl RayCast for HeightField {
             return None;
         }
 
-        let right = ray.dir.x > 0.0;
+        let right = ray.dir.x * self.scale().x > 0.0;
         let cell_width = self.cell_width();
         let start_x = self.start_x();
 
